@@ -314,7 +314,11 @@ func execCalls(f *dkgFixture, calls []concreteCall) ([]callResult, string) {
 			}()
 			switch c.sym {
 			case symStart:
-				res[i].class = classifyErr(inst.Start(c.seed))
+				seed := append([]byte{}, c.seed...)
+				res[i].class = classifyErr(inst.Start(seed))
+				for k := range seed {
+					seed[k] = 0xEE
+				}
 			case symTimeout:
 				res[i].class = classifyErr(inst.NextTimeout())
 			case symEnd:
@@ -332,9 +336,17 @@ func execCalls(f *dkgFixture, calls []concreteCall) ([]callResult, string) {
 			case symRunning:
 				res[i].class = "running"
 			case symHBValid, symHBJunk, symHBOut:
-				res[i].class = classifyErr(inst.HandleBroadcastMsg(c.idx, c.payload))
+				buf := append([]byte{}, c.payload...) // the transport's buffer, overwritten after the call
+				res[i].class = classifyErr(inst.HandleBroadcastMsg(c.idx, buf))
+				for k := range buf {
+					buf[k] = 0xEE
+				}
 			case symHPValid, symHPJunk, symHPOut:
-				res[i].class = classifyErr(inst.HandlePrivateMsg(c.idx, c.payload))
+				buf := append([]byte{}, c.payload...)
+				res[i].class = classifyErr(inst.HandlePrivateMsg(c.idx, buf))
+				for k := range buf {
+					buf[k] = 0xEE
+				}
 			default:
 				res[i].class = classifyErr(inst.ForceDisqualify(c.idx))
 			}
